@@ -328,3 +328,139 @@ def gen_c15(seed, count):
 
 
 PYGEN['py_c15'] = gen_c15
+
+
+def _program_c13(r):
+    """(prefix actions builder) a fault-free program on one connection; ops are recorded so that one can be left out"""
+    cfg = dict(rx=r.choice([64, 128]), tx=r.choice([128, 256]), ka=0)
+    ops = []
+    for _ in range(r.randint(2, 9)):
+        x = r.random()
+        if x < 0.30:
+            q = r.choice([1, 1, 2])
+            pl = bytes(r.randrange(256) for _ in range(r.randint(0, 24)))
+            ops.append(('publish', (r.choice([b'a', b'top/ic']), pl, q)))
+        elif x < 0.42:
+            ops.append(('subscribe', (b'f/' + bytes([97 + r.randint(0, 5)]), r.randint(0, 2))))
+        elif x < 0.48:
+            ops.append(('unsubscribe', (b'f/a',)))
+        elif x < 0.62:
+            q = r.choice([0, 1, 2])
+            ops.append(('feedpoll', publish(q, r.randint(1, 6), b't', bytes(r.randrange(256) for _ in range(r.randint(0, 12))))))
+        elif x < 0.72:
+            ops.append(('feedpoll', ack(r.choice([4, 5, 7]), r.randint(1, 4), None)))
+        elif x < 0.78:
+            ops.append(('feedpoll', ack(6, r.randint(1, 6), None)))
+        elif x < 0.86:
+            ops.append(('poll', None))
+        elif x < 0.90:
+            ops.append(('recv', None))
+        elif x < 0.95:
+            ops.append(('drive', None))
+        else:
+            ops.append(('disconnect', None))
+            break
+    return cfg, ops
+
+
+def _build_c13(cfg, ops, skip=None, script=(), retry=None):
+    c = Case(**cfg)
+    c.connect(connack(0, 0, []))
+    index = {}
+    for j, (k, v) in enumerate(ops):
+        if j == skip:
+            c.drive()                         # the request is left out; what its pre-flush would have sent still goes out
+            continue
+        if retry is not None and retry[0] < len(c.actions):
+            c.actions.insert(retry[0] + 1, [retry[1]])
+            retry = None
+        index[j] = len(c.actions)
+        if k == 'publish':
+            c.publish(v[0], v[1], qos=v[2])
+        elif k == 'subscribe':
+            c.subscribe(((v[0], v[1]),))
+        elif k == 'unsubscribe':
+            c.unsubscribe(v)
+        elif k == 'feedpoll':
+            c.feed(v)
+            index[j] = len(c.actions)
+            c.poll()
+        elif k == 'poll':
+            c.poll()
+        elif k == 'recv':
+            c.recv()
+        elif k == 'drive':
+            c.drive()
+        elif k == 'disconnect':
+            c.disconnect()
+    if retry is not None and retry[0] < len(c.actions):
+        c.actions.insert(retry[0] + 1, [retry[1]])
+        retry = None
+    c.broker(1)
+    c.poll(8)
+    if retry is not None:
+        c.actions.insert(retry[0] + 1, [retry[1]])
+    c.ev(*script)
+    return c, index
+
+
+def gen_c13(seed, count):
+    """pairs (cancelled run, uncancelled twin).  The cancelled run drops the future that is running at a chosen I/O
+    call (after `k` calls that accept `chunk` bytes each); the twin is the same program without the drop — or, when
+    the dropped request had not been enqueued yet, the program without that request.  The generator runs the
+    implementation once to learn which of the two applies (the check then runs both members on both sides)."""
+    import common as C
+    from trace import parse_trace, list_field
+    cands = []
+    for idx in range(count):
+        r = random.Random((seed << 20) ^ (idx + 32452843))
+        cfg, ops = _program_c13(r)
+        base, _ = _build_c13(cfg, ops)
+        cands.append((r, cfg, ops, base.line()))
+    outs = C.run_impl([x[3] for x in cands])
+    stage2 = []
+    for (r, cfg, ops, line), o in zip(cands, outs):
+        body = o.split('|#12')[0]
+        if '= cancelled' in body or '= err' in body:
+            continue                          # the program itself blocks for ever somewhere (the runner gives up) or fails
+        n = sum(1 for part in o.split('|') if part[:2] in ('w ', 'r ', 'f '))
+        k = r.randint(5, max(6, n))           # after the CONNECT handshake (5 calls with a whole write)
+        chunk = r.choice([1000, 1000, 1, 2, 3])
+        script = [(0, chunk)] * k + [(3, 0)]
+        a, index = _build_c13(cfg, ops, None, script)
+        stage2.append((r, cfg, ops, a.line(), index, script, chunk))
+    outs = C.run_impl([x[3] for x in stage2])
+    pairs = []
+    for (r, cfg, ops, aline, index, script, chunk), o in zip(stage2, outs):
+        acts = parse_trace(o)
+        j = next((i for i, a in enumerate(acts) if a.result == 'cancelled'), None)
+        if j is None:
+            continue
+        a = acts[j]
+        meta = {'cancelled_action': j, 'code': a.code, 'detail': a.detail, 'chunk': chunk}
+        if a.code == 0 or (a.code == 1 and a.detail == '0'):
+            continue                          # connect() and QoS 0 publish are not cancel-safe
+        opj = next((q for q, ai in index.items() if ai == j), None)
+        skip = None
+        if a.code in (1, 2, 3, 4) and opj is not None:
+            before = acts[j - 1].state or {}
+            after = a.state or {}
+            enq = len(list_field(after.get('ret', '[]'))) > len(list_field(before.get('ret', '[]')))
+            wrote_own = False
+            if a.code == 4:
+                # disconnect: enqueued = some of its bytes were accepted
+                enq = any(e[0] == 'w' and e[2] for e in a.events)
+            if not enq:
+                skip = opj
+            meta['enqueued'] = enq
+        # "continuing to drive the connection": the dropped poll/recv/drive is called again, a dropped request is
+        # followed by drive() — inserted right behind the cancelled action, before the rest of the program
+        again = a.code if a.code in (5, 6, 7) else 5
+        a2, _ = _build_c13(cfg, ops, None, script, retry=(j, again))
+        # the twin accepts `chunk` bytes per call for the same number of calls, then everything
+        b, _ = _build_c13(cfg, ops, skip, [(0, chunk)] * (len(script) - 1))
+        pairs.append((a2.line(), b.line(), meta))
+    return pairs
+
+
+PYGEN['py_c13'] = gen_c13
